@@ -188,34 +188,36 @@ structure Holds (r0 : B) (Q : SVal → LVal → Prop) (root : B) (rows : List SV
   rows : All2 (fun lv x => Q x lv) (dec root) rows
 
 section
-variable (ext : Ext) (r0 : B) (Q : SVal → LVal → Prop)
-variable (hstep : ∀ (b b' : B) (x : SVal), WFB b → Safe b → takeRest b = r0 → rawOK x = true → push ext b x = .ok b' →
+variable (ext : Ext) (r0 : B) (Q : SVal → LVal → Prop) (okx : SVal → Prop)
+variable (hokraw : ∀ x, okx x → rawOK x = true)
+variable (hstep : ∀ (b b' : B) (x : SVal), WFB b → Safe b → takeRest b = r0 → okx x → push ext b x = .ok b' →
   ∃ lv, dec b' = dec b ++ [lv] ∧ Q x lv)
-include hstep
+include hstep hokraw
 
 theorem holds_push {root r : B} {pending : List SVal} {x : SVal} (hh : Holds r0 Q root pending)
-    (hraw : rawOK x = true) (h : push ext root x = .ok r) : Holds r0 Q r (pending ++ [x]) := by
+    (hraw : okx x) (h : push ext root x = .ok r) : Holds r0 Q r (pending ++ [x]) := by
   obtain ⟨lv, hd, hq⟩ := hstep root r x hh.wf hh.safe hh.take hraw h
-  obtain ⟨hw, hs, _⟩ := C01.push_appends ext x root r hraw hh.wf hh.safe h
+  obtain ⟨hw, hs, _⟩ := C01.push_appends ext x root r (hokraw x hraw) hh.wf hh.safe h
   exact ⟨hw, hs, by rw [push_takeRest ext x root r h, hh.take], by
     rw [hd]; exact All2.append hh.rows (All2.cons hq All2.nil)⟩
 
 theorem holds_fold : ∀ (rows : List SVal) {root r : B} {pending : List SVal}, Holds r0 Q root pending →
-    (∀ x ∈ rows, rawOK x = true) → rows.foldlM (push ext) root = .ok r → Holds r0 Q r (pending ++ rows)
+    (∀ x ∈ rows, okx x) → rows.foldlM (push ext) root = .ok r → Holds r0 Q r (pending ++ rows)
   | [], root, r, pending, hh, _, h => by
     simp [List.foldlM, pure, Except.pure] at h; subst h; simpa using hh
   | x :: rest, root, r, pending, hh, hraw, h => by
     simp only [List.foldlM] at h
     obtain ⟨b1, h1, h⟩ := (bind_ok _ _ _).1 h
-    have := holds_fold rest (holds_push ext r0 Q hstep hh (hraw x (by simp)) h1) (fun y hy => hraw y (by simp [hy])) h
+    have := holds_fold rest (holds_push ext r0 Q okx hokraw hstep hh (hraw x (by simp)) h1) (fun y hy => hraw y (by simp [hy])) h
     simpa using this
 
-/-- all records of a history have alternating raw streams (vacuous without `mapRaw`) -/
-def RawOKOps (ops : List Op) : Prop := ∀ op ∈ ops, ∀ x ∈ op.rows, rawOK x = true
+omit hstep hokraw in
+/-- all records of a history satisfy `okx` -/
+def OpsOK (okx : SVal → Prop) (ops : List Op) : Prop := ∀ op ∈ ops, ∀ x ∈ op.rows, okx x
 
 theorem batches_gen (fields : List Field) (h0 : newRoot fields = .ok r0) (hsafe : Safe r0) :
     ∀ (ops : List Op) (root : B) (pending : List SVal) (outs : List (B × List Arr)) (fin : B),
-      Holds r0 Q root pending → RawOKOps ops → run ext root ops = .ok (outs, fin) →
+      Holds r0 Q root pending → OpsOK okx ops → run ext root ops = .ok (outs, fin) →
       All2 (fun (out : B × List Arr) rows => Holds r0 Q out.1 rows ∧ buildArrays ext out.1 = .ok (out.2, r0))
         outs (batchesFrom pending ops)
   | [], root, pending, outs, fin, _, _, h => by
@@ -224,8 +226,8 @@ theorem batches_gen (fields : List Field) (h0 : newRoot fields = .ok r0) (hsafe 
   | .push x :: ops, root, pending, outs, fin, hh, hraw, h => by
     simp only [run] at h
     obtain ⟨r, h1, h⟩ := (bind_ok _ _ _).1 h
-    have hx : rawOK x = true := hraw (.push x) (by simp) x (by simp [Op.rows])
-    exact batches_gen fields h0 hsafe ops r _ outs fin (holds_push ext r0 Q hstep hh hx h1)
+    have hx : okx x := hraw (.push x) (by simp) x (by simp [Op.rows])
+    exact batches_gen fields h0 hsafe ops r _ outs fin (holds_push ext r0 Q okx hokraw hstep hh hx h1)
       (fun op hop => hraw op (by simp [hop])) h
   | .extend x :: ops, root, pending, outs, fin, hh, hraw, h => by
     simp only [run] at h
@@ -235,10 +237,10 @@ theorem batches_gen (fields : List Field) (h0 : newRoot fields = .ok r0) (hsafe 
     rw [hroot] at h1
     obtain ⟨rows, hrows, hf⟩ := extend_spec ext x _ _ _ _ _ _ r h1
     rw [← hroot] at hf
-    have hx : ∀ y ∈ rows, rawOK y = true := by
+    have hx : ∀ y ∈ rows, okx y := by
       intro y hy
       exact hraw (.extend x) (by simp) y (by simp [Op.rows, hrows, hy])
-    have := holds_fold ext r0 Q hstep rows hh hx hf
+    have := holds_fold ext r0 Q okx hokraw hstep rows hh hx hf
     simp only [batchesFrom, hrows, Option.getD_some]
     exact batches_gen fields h0 hsafe ops r _ outs fin this (fun op hop => hraw op (by simp [hop])) h'
   | .build :: ops, root, pending, outs, fin, hh, hraw, h => by
@@ -262,13 +264,13 @@ end
 added since build k-1 (each column at that length, `C01.runRows_rows`), returns `finishFields` of that state, and
 the builder continues from the fresh builder of the schema. -/
 theorem batches (ext : Ext) (fields : List Field) (r0 : B) (h0 : newRoot fields = .ok r0) (hsafe : Safe r0)
-    (ops : List Op) (hraw : RawOKOps ops) (outs : List (B × List Arr)) (fin : B)
+    (ops : List Op) (hraw : OpsOK (fun x => rawOK x = true) ops) (outs : List (B × List Arr)) (fin : B)
     (h : run ext r0 ops = .ok (outs, fin)) :
     All2 (fun (out : B × List Arr) rows =>
         WFB out.1 ∧ (dec out.1).length = rows.length ∧ buildArrays ext out.1 = .ok (out.2, r0))
       outs (batchesFrom [] ops) := by
   have hfresh := newRoot_fresh h0
-  have := batches_gen ext r0 (fun _ _ => True) (by
+  have := batches_gen ext r0 (fun _ _ => True) (fun x => rawOK x = true) (fun _ h => h) (by
     intro b b' x hw hs _ hraw hp
     obtain ⟨_, _, lv, hd⟩ := C01.push_appends ext x b b' hraw hw hs hp
     exact ⟨lv, hd, trivial⟩) fields h0 hsafe ops r0 [] outs fin
@@ -276,6 +278,31 @@ theorem batches (ext : Ext) (fields : List Field) (r0 : B) (h0 : newRoot fields 
   refine All2.imp ?_ this
   intro out rows ⟨hh, hb⟩
   exact ⟨hh.wf, All2.length hh.rows, hb⟩
+
+/-- **batches (content).** For covered schemas and records without raw call streams: build k sees a root whose
+rows are exactly `interpRow` of the records added since build k-1, in order (a 0-row build sees no rows), and
+returns `finishFields` of that state; the builder continues from the fresh builder. -/
+theorem batches_interp (ext : Ext) (fields : List Field) (r0 : B) (hc : fields.all coveredF = true)
+    (h0 : newRoot fields = .ok r0) (hsafe : Safe r0)
+    (ops : List Op) (hraw : OpsOK (fun x => noRaw x = true) ops) (outs : List (B × List Arr)) (fin : B)
+    (h : run ext r0 ops = .ok (outs, fin)) :
+    All2 (fun (out : B × List Arr) rows =>
+        WFB out.1 ∧ All2 (fun lv x => interpRow ext fields x = .ok lv) (dec out.1) rows ∧
+        buildArrays ext out.1 = .ok (out.2, r0))
+      outs (batchesFrom [] ops) := by
+  have hfresh := newRoot_fresh h0
+  have hshape := newRoot_shape hc h0
+  have := batches_gen ext r0 (fun x lv => interpRow ext fields x = .ok lv) (fun x => noRaw x = true)
+    (fun x h => noRaw_rawOK x h) (by
+    intro b b' x hw hs ht hraw hp
+    have hsh : Shape b (.struct (Fields.ofList fields)) false [] :=
+      Shape.of_takeRest (ht.trans hfresh.2.2.symm) hshape
+    obtain ⟨_, _, _, lv, hd, hi⟩ := C01.push_interp ext x b b' _ _ _ hraw hw hs hsh hp
+    exact ⟨lv, hd, hi⟩) fields h0 hsafe ops r0 [] outs fin
+    ⟨hfresh.1, hsafe, hfresh.2.2, by rw [hfresh.2.1]; exact All2.nil⟩ hraw h
+  refine All2.imp ?_ this
+  intro out rows ⟨hh, hb⟩
+  exact ⟨hh.wf, hh.rows, hb⟩
 
 /-! ### non-vacuity -/
 
